@@ -127,6 +127,24 @@ class Ref:
         return out, full @ self.J[self.n - 1], full @ self.M
 
 
+def joint_state(arm):
+    """The arm's stored joint vector.  The library offers no getter; it keeps it in `_theta`.  Should a later version keep
+    it elsewhere the harness has to be told - a harness error, never a verdict about the library."""
+    from mc.pool import HarnessError
+    if not hasattr(arm, "_theta"):
+        raise HarnessError("the arm object has no attribute _theta any more: the harness reads the stored joint vector there")
+    return np.asarray(arm._theta, float).reshape(-1)
+
+
+def private(obj, name):
+    """A private attribute the harness reads ONCE from a freshly built object to set up its reference description."""
+    from mc.pool import HarnessError
+    if not hasattr(obj, name):
+        raise HarnessError("%s object has no attribute %s any more: the harness reads its reference description there"
+                           % (type(obj).__name__, name))
+    return getattr(obj, name)
+
+
 def build(name, seed=0):
     """name = '<kind>@<base>' e.g. '6R@I', '6R@B0', 'urdf:ur5@I', 'gen:3R@B1'.  Returns (arm, Ref)."""
     from basic_robotics.general import tm
@@ -139,12 +157,12 @@ def build(name, seed=0):
             arm = loadArmFromURDF(path)
         Bi = se3.tinv(arm.getBasePos().gTM())
         S_local = se3.adj(Bi) @ np.array(arm.screw_list, float)
-        M_local = Bi @ arm._end_effector_home.gTM()
-        J_local = [Bi @ j.gTM() for j in arm._joint_homes_global]
-        fo = None if arm._fixed_base_offset is None else arm._fixed_base_offset.gTM()
+        M_local = Bi @ private(arm, '_end_effector_home').gTM()
+        J_local = [Bi @ j.gTM() for j in private(arm, '_joint_homes_global')]
+        fo = None if private(arm, '_fixed_base_offset') is None else arm._fixed_base_offset.gTM()
         ref = Ref(arm.getBasePos().gTM(), S_local, M_local, J_local, arm.joint_mins.copy(), arm.joint_maxs.copy(), fo)
         ref.urdf = True
-        ref.L = [Bi @ x.gTM() for x in (arm._link_homes_global or [])]
+        ref.L = [Bi @ x.gTM() for x in (private(arm, '_link_homes_global') or [])]
         ref.frames_local = [Bi @ x.gTM() for x in arm.getJointTransforms()]
         if bname != "I":
             with contextlib.redirect_stdout(io.StringIO()):
